@@ -152,7 +152,7 @@ func (st *c13State) checkRates() {
 	parkedNow := map[string]bool{}
 	for _, p := range st.w.S.Parked(true) {
 		_, fetched := st.fetchedAt[p.Name]
-		if p.Node == n.Name && (p.Site == "impact.prelock" || (fetched && strings.HasPrefix(p.Site, "auto."))) {
+		if p.Node == n.Name && (p.Site == "impact.prelock" || (fetched && isAutoSite(p.Site))) {
 			parkedNow[p.Name] = true
 		}
 	}
@@ -193,7 +193,7 @@ func keysOf(m map[uint32]bool) []uint32 {
 func (st *c13State) onPark(p *Parked) {
 	w := st.w
 	w.Logf("park %s at %s", p.Name, p.Site)
-	interesting := strings.HasPrefix(p.Site, "auto.")
+	interesting := isAutoSite(p.Site)
 	for _, s := range c13Sites {
 		if s == p.Site {
 			interesting = true
@@ -752,4 +752,10 @@ func runC13(m *Sim) {
 	n.Check("C13.linear", "final")
 	h.CheckArchiveImmutable("final")
 	checkSurfaces(w, n, h.live())
+}
+
+// isAutoSite: a yield point that the pinned tree does not have - inserted by
+// the A flavour's rewriting or added by the change under test.
+func isAutoSite(site string) bool {
+	return strings.HasPrefix(site, "auto.") || !knownYieldSites[site]
 }
